@@ -407,7 +407,7 @@ impl Ctx {
             eprintln!("ENGINE-ERROR cannot create {}", evdir);
             return 2;
         }
-        let path = format!("{}/{}.json", evdir, self.prop);
+        let path = if is_child() { child_evidence_path(&self.verif_dir, self.prop) } else { format!("{}/{}.json", evdir, self.prop) };
         if let Err(e) = std::fs::write(&path, serde_json::to_string_pretty(&ev).unwrap() + "\n") {
             eprintln!("ENGINE-ERROR cannot write {}: {}", path, e);
             return 2;
@@ -535,7 +535,7 @@ fn load_known(verif_dir: &str, prop: &str) -> Vec<Known> {
     let mut out = Vec::new();
     for (ln, line) in text.lines().enumerate() {
         let line = line.trim();
-        if line.is_empty() || line.starts_with('#') {
+        if line.is_empty() || line.starts_with('#') || line.starts_with("fixed:") {
             continue;
         }
         let v: Value = match serde_json::from_str(line) {
@@ -550,4 +550,50 @@ fn load_known(verif_dir: &str, prop: &str) -> Vec<Known> {
         }
     }
     out
+}
+
+
+/// This process is the plain-profile child of a check (C05, C11 run under both build profiles).
+pub fn is_child() -> bool {
+    std::env::var("MC_CHILD").is_ok()
+}
+
+pub fn child_evidence_path(verif_dir: &str, prop: &str) -> String {
+    format!("{}/evidence/.{}.plain-child.json", verif_dir, prop)
+}
+
+/// Run the same check in the plain release build (no overflow checks, no debug assertions) as a
+/// child process. Returns (its evidence, its exit code). Its VIOLATION lines go to our stdout.
+pub fn run_plain_child(ctx: &Ctx) -> (Value, i32) {
+    let bin = match std::env::var("MC_PLAIN_BIN") {
+        Ok(b) => b,
+        Err(_) => {
+            eprintln!("ENGINE-ERROR MC_PLAIN_BIN is not set (run through /verif/check)");
+            std::process::exit(2);
+        }
+    };
+    let path = child_evidence_path(&ctx.verif_dir, ctx.prop);
+    let _ = std::fs::remove_file(&path);
+    let status = std::process::Command::new(&bin)
+        .arg(ctx.prop)
+        .arg(ctx.tier.name())
+        .env("MC_CHILD", "1")
+        .status();
+    let code = match status {
+        Ok(s) => s.code().unwrap_or(2),
+        Err(e) => {
+            eprintln!("ENGINE-ERROR cannot run {}: {}", bin, e);
+            std::process::exit(2);
+        }
+    };
+    if code != 0 && code != 1 {
+        eprintln!("ENGINE-ERROR plain-profile child exited with {}", code);
+        std::process::exit(2);
+    }
+    let ev: Value = std::fs::read_to_string(&path).ok().and_then(|t| serde_json::from_str(&t).ok()).unwrap_or_else(|| {
+        eprintln!("ENGINE-ERROR plain-profile child wrote no evidence");
+        std::process::exit(2);
+    });
+    let _ = std::fs::remove_file(&path);
+    (ev, code)
 }
